@@ -73,7 +73,7 @@ def run_kani(scratch, unit, harnesses, timeout_s, jobs=None):
     out_json = os.path.join(scratch.path, 'kani-%s.json' % unit['name'])
     cmd = ['cargo', 'kani', '--output-format=terse', '-j', str(jobs or min(NCPU, max(1, len(harnesses)))),
            '-Z', 'unstable-options', '--export-json', out_json]
-    cmd += unit.get('flags', [])
+    cmd += [f.replace('{scratch}', scratch.path) for f in unit.get('flags', [])]
     if unit.get('features'):
         cmd += ['--features', unit['features']]
     if unit.get('harness_timeout'):
